@@ -27,7 +27,7 @@ import sys
 import time
 from concurrent.futures import ThreadPoolExecutor
 
-from vlib.core import VERIF, main_for, pmap
+from vlib.core import REPO, VERIF, main_for, pmap
 
 PID = 'C17'
 NAN, INF = float('nan'), float('inf')
@@ -79,7 +79,7 @@ BOUNDS = {
     'Optimizer': 'thorough tier: SGD+momentum, Adam, Adagrad, RMSprop+momentum, AdamW+amsgrad x {no scheduler, StepLR, '
                  'MultiStepLR, ExponentialLR, LambdaLR, CosineAnnealingLR} x {0,1,2} concrete warm-up steps x '
                  '(StanVariationalConvergence only without scheduler, 2 warm-up steps); two parameters (float64 [2], float32 [1]); symbolic '
-                 'iteration counter, lr, scheduler last_epoch/_step_count, ELBO',
+                 'iteration counter, scheduler last_epoch/_step_count/_last_lr, ELBO; concrete non-default lr',
     'codec': 'thorough tier: tensors float64/float32/int64/bool, 0-2 dims, 0..3 columns, nn flag; Parameter specifications '
              'tensor/full/zeros/ones/zeros_like/ones_like/full_like/eye/tensor+dimension/scalar/integer x dtype key '
              '{absent,float32,float64} x nn flag x float32/float64 *_like source x float32/float64 default dtype',
@@ -99,7 +99,7 @@ def crosshair(path, fn, timeout, skip):
     lines, start = inspect.getsourcelines(fn)
     env = dict(os.environ)
     env['C17_SKIP'] = json.dumps(sorted(skip))
-    env['PYTHONPATH'] = f'{VERIF}:/repo' + (':' + env['PYTHONPATH'] if env.get('PYTHONPATH') else '')
+    env['PYTHONPATH'] = f'{VERIF}:{REPO}' + (':' + env['PYTHONPATH'] if env.get('PYTHONPATH') else '')
     cmd = [sys.executable, '-m', 'crosshair', 'check', '--report_all', '--per_condition_timeout', str(timeout),
            '--per_path_timeout', str(max(20, timeout // 4)), f'{path}:{start}']
     t0 = time.time()
@@ -206,7 +206,10 @@ def run_task(case, tr):
     tr.stubs |= {'JSON text layer (json.dump / json.load C scanner) replaced by chk.c17_model.json_model inside CrossHair',
                  'dicts handed to load_state_dict inside CrossHair record reads of absent keys (reported as '
                  'KeyError-<key>) and return a sentinel instead of raising, so later fields can still be judged; '
-                 'replays use plain dicts'}
+                 'replays use plain dicts',
+                 "torch.optim.Optimizer.load_state_dict (torch's own code: dicts keyed by tensors, which CrossHair's "
+                 "symbolic-aware dict cannot compare) runs with the opcode tracer off on concrete arguments; torchtree's "
+                 "Optimizer.load_state_dict, which prepares them, is traced"}
 
     # ---- sanity pass (concrete, real json) -----------------------------------------------------------
     for args in witnesses:
